@@ -705,9 +705,26 @@ fn run_op(tx: &mut Transaction, op: &Value) -> Value {
                 "p2pkh" => format!("OP_DUP OP_HASH160 {} OP_EQUALVERIFY OP_CHECKSIG", Hash::hash_160(&pubs[0].to_bytes().unwrap()).to_hex()),
                 _ => format!("OP_{} {} OP_{} OP_CHECKMULTISIG", m, pubhex[..n].join(" "), n),
             };
-            let lock_asm = if sep { format!("OP_1 OP_DROP OP_CODESEPARATOR {}", core) } else { core.clone() };
-            let locking = Script::from_asm_string(&lock_asm).unwrap();
-            let subscript = Script::from_asm_string(&core).unwrap();
+            let lock_asm = match op["lock_tpl"].as_str() {
+                // a caller-supplied locking script around the core (conditionals / separators in front of it)
+                Some(tpl) => tpl.replace("{core}", &core),
+                None if sep => format!("OP_1 OP_DROP OP_CODESEPARATOR {}", core),
+                None => core.clone(),
+            };
+            let locking = match Script::from_asm_string(&lock_asm) {
+                Ok(l) => l,
+                Err(e) => return json!({ "err": format!("lock_tpl: {}", e) }),
+            };
+            // reference subscript: opcodes still to be serialised after a separator inside a running branch (rest of the branch, OP_ENDIF), then the core
+            let mut sub_bits: Vec<ScriptBit> = vec![];
+            for nm in op["sub_prefix_ops"].as_array().cloned().unwrap_or_default() {
+                match <OpCodes as std::str::FromStr>::from_str(nm.as_str().unwrap_or("")) {
+                    Ok(code) => sub_bits.push(ScriptBit::OpCode(code)),
+                    Err(_) => return json!({ "err": "sub_prefix_ops: unknown opcode" }),
+                }
+            }
+            sub_bits.extend(Script::from_asm_string(&core).unwrap().to_script_bits());
+            let subscript = Script::from_script_bits(sub_bits);
             let mut tx = Transaction::new(2, 7);
             let mut other = TxIn::new(&[9u8; 32], 1, &Script::from_asm_string("OP_1").unwrap(), Some(0xfffffffe));
             other.set_satoshis(1);
